@@ -1,8 +1,10 @@
 package gogen
 
+import "os"
+
 // FlowProfile is the C01 domain: no goroutines, reflection, unsafe or recover.
 func FlowProfile(off map[string]bool) *Profile {
-	return &Profile{
+	p := &Profile{
 		Name: "flow",
 		Weights: map[string]int{
 			"source": 10, "sink": 9, "decl": 10, "assign": 6, "store": 12, "call": 12, "methodcall": 4, "ifacecall": 4,
@@ -16,6 +18,10 @@ func FlowProfile(off map[string]bool) *Profile {
 		MaxDepth:   3,
 		Off:        off,
 	}
+	if os.Getenv("VERIF_PROFILE") == "small" {
+		p.MaxHelpers, p.MainStmts, p.FnStmts, p.MaxDepth = 2, [2]int{3, 7}, [2]int{1, 4}, 2
+	}
+	return p
 }
 
 // SanitizeProfile is the flow profile plus sanitizer and validator calls (C02).
